@@ -1,7 +1,7 @@
 #!/bin/sh
 # confirm + evaluate every finished round-2 seed that is not stored yet
 cd /verif
-for d in /tmp/seed2-*/_out /tmp/seed3-*/_out /tmp/seed4-*/_out /tmp/seed5-*/_out /tmp/seed6-*/_out /tmp/seed7-*/_out /tmp/seed8-*/_out /tmp/seed9-*/_out /tmp/seed10-*/_out; do
+for d in /tmp/seed2-*/_out /tmp/seed3-*/_out /tmp/seed4-*/_out /tmp/seed5-*/_out /tmp/seed6-*/_out /tmp/seed7-*/_out /tmp/seed8-*/_out /tmp/seed9-*/_out /tmp/seed10-*/_out /tmp/seed11-*/_out; do
   [ -d "$d" ] || continue
   r=$(basename $(dirname $d) | sed "s/seed\([0-9]*\)-.*/\1/"); p=$(basename $(dirname $d) | sed "s/seed[0-9]*-//")
   for k in 1 2; do
